@@ -76,6 +76,17 @@ def rule_f(prog, chk, unit_suffixes, floor_n):
                 continue
             num = [d for y in walk(x["c"][0]) for d in [_var(y)] if d in upd]
             den = [d for y in walk(x["c"][1]) for d in [_var(y)] if d in upd]
+            # a gated sum divided by the SIZE of the container (not by a gated count)
+            if num and not den and any(y["k"] == "MCall" and (y.get("callee") or "").split("::")[-1] == "size" for y in walk(x["c"][1])):
+                ga0 = [gateset(u) for u in upd[num[0]]]
+                if ga0 and all(s_ is not None for s_ in ga0) and set.union(*ga0):
+                    n += 1
+                    chk.analysed(f)
+                    na0 = show(upd[num[0]][0]["c"][0])
+                    chk.ob("C11f", "%s: the sum `%s` over the defined elements is divided by a count of the same elements" % (f.name, na0), f.loc(x), False,
+                           detail="`%s` accumulates the defined elements only (tests {%s}) and is divided by the size of the container: the undefined elements "
+                           "count in the divisor" % (na0, ", ".join(sorted(set.union(*ga0)))), key="C11f|%s/%d|%s/size" % (f.name, len(f.params), na0))
+                continue
             for a in num[:1]:
                 for b in den[:1]:
                     if a == b or (a, b) in seen:
